@@ -1,6 +1,8 @@
 import FuModel.Find.Run
 import FuModel.Proofs.ExprEval
 import FuModel.Props.C18
+import FuModel.Props.C02
+import FuModel.Proofs.WalkPreserve
 
 /-!
 # C10 — -delete removes exactly the matched entries and nothing else
@@ -142,5 +144,64 @@ example :
     let v : Visit Attr := ⟨⟨[[98]], 1, .dir [98] false true { lty := 'd', sty := 'd' } [.leaf [99] .plain { lty := 'f', sty := 'f' }], false⟩, false, .never⟩
     (sem [116] v .delete ⟨{}, false, false, 0⟩).1 = false ∧
     (sem [116] v .delete ⟨{ deleted := [[116, 47, 98, 47, 99]] }, false, false, 0⟩).1 = true := by decide
+
+theorem flushMultis_deleted (execdir : Bool) (d : Bytes) (ms : List (Nat × Bool × Bool × Bytes × List Bytes)) :
+    ∀ (g : GS) (failed : Bool), (flushMultis execdir d ms g failed).1.deleted = g.deleted := by
+  induction ms with
+  | nil => intro g failed; rfl
+  | cons m ms ih =>
+    intro g failed
+    obtain ⟨id, dir, ok, cmd, fixed⟩ := m
+    simp only [flushMultis]
+    split
+    · split
+      · rw [ih]; simp [setPending_deleted, runBatch_deleted]
+      · exact ih _ _
+    · exact ih _ _
+
+/-- one entry, with `process_dir`'s bookkeeping around the expression: every path in the removed
+    set afterwards was there before or is this entry's own path -/
+theorem evalEntry_deleted (m : M Prim) (start : Bytes) (v : Visit Attr) (g : GS) :
+    ∀ x ∈ (evalEntry m start v g).2.deleted, x ∈ g.deleted ∨ x = pathOf start v.ent.rpath := by
+  intro x hx
+  unfold evalEntry at hx
+  simp only at hx
+  split at hx
+  · rename_i hne
+    have := C10_only_this_entry m start v ⟨_, false, false, _⟩ x hx
+    rcases this with h | h
+    · left
+      simp only at h
+      cases hc : g.curDir with
+      | none => simpa [hc] using h
+      | some dd => simpa [hc, flushMultis_deleted] using h
+    · exact Or.inr h
+  · have := C10_only_this_entry m start v ⟨_, false, false, _⟩ x hx
+    rcases this with h | h
+    · exact Or.inl h
+    · exact Or.inr h
+
+/-- **Over a whole starting point** (the real walk, post-order as `-delete` forces it): whatever the
+    expression and the tree, every path removed during the walk is the path of an entry of this
+    starting point — `start` followed by names — or was removed before.  Nothing outside the
+    starting points is ever removed, and a link's target never is (its path is not below `start`). -/
+theorem C10_whole_walk (c : RefCfg) (m : M Prim) (start : Bytes) (root : Node Attr) (g : GS)
+    (hpost : c.depthFirst = true) (hH : ¬ HRootLink c root) :
+    ∀ x ∈ (processRoot c (evalEntry m start) root g).st.deleted, x ∈ g.deleted ∨ ∃ rp, x = pathOf start rp := by
+  rw [C02_refines_post c (evalEntry m start) hpost root hH g]
+  simp only [resOf]
+  let Q : GS → GS → Prop := fun a b => ∀ x ∈ b.deleted, x ∈ a.deleted ∨ ∃ rp, x = pathOf start rp
+  have := refNode_preserves c (evalEntry m start) Q (fun s x hx => Or.inl hx)
+    (fun a b cc hab hbc x hx => by
+      rcases hbc x hx with h | h
+      · exact hab x h
+      · exact Or.inr h)
+    (fun v s x hx => by
+      rcases evalEntry_deleted m start v s x hx with h | h
+      · exact Or.inl h
+      · exact Or.inr ⟨_, h⟩)
+    [] 0 root ⟨g, 0, 0⟩
+  exact this
+
 
 end FuModel.Find.Run
